@@ -185,6 +185,11 @@ func newProbeWorld(kind, set string, settleMs int) (*probeWorld, error) {
 			func(r *mcp.Resource, h func(context.Context, *mcp.ReadResourceRequest) (mcp.ResourceContents, error)) {
 				srv.RegisterResource(r, h)
 			}, set)
+		if set != "empty" {
+			srv.RegisterResourceTemplate(mcp.NewResourceTemplate("r://tpl/{id}", "tpl"), func(ctx context.Context, req *mcp.ReadResourceRequest) ([]mcp.ResourceContents, error) {
+				return []mcp.ResourceContents{mcp.TextResourceContents{URI: req.Params.URI, Text: "T"}}, nil
+			})
+		}
 		w.ts = httptest.NewServer(srv.Handler())
 		w.path = "/mcp"
 		w.url = w.ts.URL + "/mcp"
@@ -206,6 +211,11 @@ func newProbeWorld(kind, set string, settleMs int) (*probeWorld, error) {
 			func(r *mcp.Resource, h func(context.Context, *mcp.ReadResourceRequest) (mcp.ResourceContents, error)) {
 				srv.RegisterResource(r, h)
 			}, set)
+		if set != "empty" {
+			srv.RegisterResourceTemplate(mcp.NewResourceTemplate("r://tpl/{id}", "tpl"), func(ctx context.Context, req *mcp.ReadResourceRequest) ([]mcp.ResourceContents, error) {
+				return []mcp.ResourceContents{mcp.TextResourceContents{URI: req.Params.URI, Text: "T"}}, nil
+			})
+		}
 		w.ts = httptest.NewServer(srv)
 		if err := w.legacyConnect(); err != nil {
 			return nil, err
@@ -221,6 +231,11 @@ func newProbeWorld(kind, set string, settleMs int) (*probeWorld, error) {
 			func(r *mcp.Resource, h func(context.Context, *mcp.ReadResourceRequest) (mcp.ResourceContents, error)) {
 				srv.RegisterResource(r, h)
 			}, set)
+		if set != "empty" {
+			srv.RegisterResourceTemplate(mcp.NewResourceTemplate("r://tpl/{id}", "tpl"), func(ctx context.Context, req *mcp.ReadResourceRequest) ([]mcp.ResourceContents, error) {
+				return []mcp.ResourceContents{mcp.TextResourceContents{URI: req.Params.URI, Text: "T"}}, nil
+			})
+		}
 		pr, pw := io.Pipe()
 		w.pw = pw
 		w.rec = &recorder{}
